@@ -50,13 +50,29 @@ def run(ctx):
     thorough = ctx.tier == 'thorough'
     ctx.level = 'other'
     ctx.explanation = (
-        'BOUNDED stand-in (not a proof): the run-time contract of CTCPrefixLogRawNumpyDecoder.__call__ — pairwise distinct '
-        'transcripts, vis_sc <= CTC log-probability, exact bag when nothing is pruned, equality with a reference '
-        'frame-synchronous k-best prefix beam search (cases whose k-th place is tied are compared on the weaker clauses only), '
-        'rejection of unnormalised input — is evaluated on the real decoder for every matrix of a finite grid. The full '
-        'inductive invariant of the beam loop is not claimed (DESIGN.md §5 C02). Spec functions: CTC alpha recursion validated '
-        'against explicit enumeration of all alignments.')
+        'Hybrid. PROVED for all inputs (pyvc, contracts/decoders.py): (1) the per-frame recurrences of the prefix search — compute_Pb, '
+        'compute_Pnb (extension from blank always, from non-blank only when the character differs from the last one; "keep" column), '
+        'compute_Plm, get_reduced_Pc, get_reduced_last_chars, get_continuation_mask; (2) the bookkeeping — get_new/old_prefixes_positions, '
+        'find_new_prefixes, find_matching, adjust_for_prefix_joining (the mass of "parent + last character" is moved to the existing child '
+        'and removed from the parent row, exactly those cells and no others); (3) the beam loop of CTCPrefixLogRawNumpyDecoder.__call__ '
+        '(configuration without a language model): inductive invariant "the beam holds pairwise distinct prefixes of real characters, each with '
+        'non-zero probability, and last_chars[p] is the last symbol of prefix p", hence pairwise distinct transcripts; ValueError iff the '
+        'normalisation deviation exceeds the tolerance.  ASSUMED contracts (listed under trusted_base, validated by the bounded tier): '
+        'multisort.top_k (k largest cells, pairwise different), the configurable pre-selection (strictly increasing positions), blank has '
+        'non-zero probability in every frame.  BOUNDED stand-in for the numeric clauses: the run-time contract of the decoder — '
+        'vis_sc <= CTC log-probability, exact bag when nothing is pruned, equality with a reference frame-synchronous k-best prefix beam '
+        'search (cases whose k-th place is tied are compared on the weaker clauses only), rejection of unnormalised input — is evaluated '
+        'on the real decoder for every matrix of a finite grid.  Spec functions: CTC alpha recursion validated against explicit '
+        'enumeration of all alignments.')
     core.setup_repo_path()
+    from pyvc import run as vrun
+    from contracts import decoders as DC
+    reps = vrun.verify(DC.KEYS, DC.CONTRACTS, root=core.repo_root(), both=thorough)
+    ctx.add_proof_reports(reps, clause='per-frame recurrences, prefix bookkeeping, distinct-prefix invariant of the beam loop')
+    ctx.trusted += ['ASSUMED contract: multisort.top_k(a, k, reverse=True) returns k pairwise different cells, each >= every cell not returned (numpy argpartition / unravel_index are outside the modelled subset)',
+                    'ASSUMED contract: the pre-selection callable returns strictly increasing positions of the row',
+                    'ASSUMED input property: blank has non-zero probability in every frame; no +inf log-probabilities',
+                    'decoder proved in the configuration without a language model (self._lm is None, model_eos = return_h = False)']
     n, bad = S.validate(3)
     ctx.extra['spec_validation'] = {'cases': n, 'mismatches': len(bad), 'what': 'CTC alpha recursion vs enumeration of all alignments'}
     if bad:
